@@ -413,6 +413,8 @@ dt_get_bday(struct dt_d_s that)
 	}
 }
 
+static dt_ymd_t dt_conv_to_ymd(struct dt_d_s);
+
 DEFUN int
 dt_get_bday_q(struct dt_d_s that, dt_bizda_param_t bp)
 {
@@ -435,7 +437,9 @@ dt_get_bday_q(struct dt_d_s that, dt_bizda_param_t bp)
 	case DT_YMD:
 		return __ymd_get_bday(that.ymd, bp);
 	case DT_YMCW:
-		return __ymcw_get_bday(that.ymcw, bp);
+		/* count them like for ymd dates, __ymcw_get_bday() is off
+		 * by one or two for most of the month */
+		return __ymd_get_bday(dt_conv_to_ymd(that), bp);
 	default:
 	case DT_DUNK:
 		return 0;
